@@ -220,6 +220,20 @@ structure StubResult where
   requested : Nat
   rest : Bytes
 
+/-- third stage of `recv_stub`: read `annotations_size + data_size` bytes and parse them -/
+def recvStage3 (z : Zlib) (hdr : Header) (s2 : Bytes) : StubResult :=
+  match recvN (hdr.annSize + hdr.dataSize) s2 with
+  | none => ⟨.error .closed, headerSize + hdr.annSize + hdr.dataSize, []⟩
+  | some (body, s3) => ⟨addPayload z hdr body, headerSize + hdr.annSize + hdr.dataSize, s3⟩
+
+/-- second stage: parse the 40 header bytes, filter the message type -/
+def recvStage2 (cfg : Cfg) (z : Zlib) (accepted : List Nat) (h40 : Bytes) (s2 : Bytes) : StubResult :=
+  match parseHeader cfg h40 with
+  | .error e => ⟨.error e, headerSize, s2⟩
+  | .ok hdr =>
+    if !accepted.isEmpty && !accepted.contains hdr.type then ⟨.error .badType, headerSize, s2⟩
+    else recvStage3 z hdr s2
+
 /-- `recv_stub(connection, accepted_msgtypes)`; `accepted = []` models `None` (any type). -/
 def recvStub (cfg : Cfg) (z : Zlib) (accepted : List Nat) (stream : Bytes) : StubResult :=
   match recvN 6 stream with
@@ -230,14 +244,28 @@ def recvStub (cfg : Cfg) (z : Zlib) (accepted : List Nat) (stream : Bytes) : Stu
     else if h6.drop 4 ≠ toBE 2 protocolVersion then ⟨.error .protocol, 6, s1⟩
     else match recvN (headerSize - 6) s1 with
       | none => ⟨.error .closed, headerSize, []⟩
+      | some (h34, s2) => recvStage2 cfg z accepted (h6 ++ h34) s2
+
+/-- `recv_stub` over an arbitrary connection: `recv n s` performs `connection.recv(n)` on connection
+    state `s` (`none` = the call raised: connection closed / timeout).  Used to compose the codec
+    with the socket model of C17 (fragmentation). -/
+def recvStubG {σ : Type} (recv : Nat → σ → Option (Bytes × σ)) (unread : σ → Bytes)
+    (cfg : Cfg) (z : Zlib) (accepted : List Nat) (s : σ) : Option StubResult :=
+  match recv 6 s with
+  | none => none
+  | some (h6, s1) =>
+    if h6.take 4 ≠ tagPYRO then some ⟨.error .protocol, 6, unread s1⟩
+    else if h6.drop 4 ≠ toBE 2 protocolVersion then some ⟨.error .protocol, 6, unread s1⟩
+    else match recv (headerSize - 6) s1 with
+      | none => none
       | some (h34, s2) =>
         match parseHeader cfg (h6 ++ h34) with
-        | .error e => ⟨.error e, headerSize, s2⟩
+        | .error e => some ⟨.error e, headerSize, unread s2⟩
         | .ok hdr =>
-          if !accepted.isEmpty && !accepted.contains hdr.type then ⟨.error .badType, headerSize, s2⟩
-          else match recvN (hdr.annSize + hdr.dataSize) s2 with
-            | none => ⟨.error .closed, headerSize + hdr.annSize + hdr.dataSize, []⟩
+          if !accepted.isEmpty && !accepted.contains hdr.type then some ⟨.error .badType, headerSize, unread s2⟩
+          else match recv (hdr.annSize + hdr.dataSize) s2 with
+            | none => none
             | some (body, s3) =>
-              ⟨addPayload z hdr body, headerSize + hdr.annSize + hdr.dataSize, s3⟩
+              some ⟨addPayload z hdr body, headerSize + hdr.annSize + hdr.dataSize, unread s3⟩
 
 end Pyro.Wire
